@@ -487,6 +487,20 @@ func (ex *Exec) inlineBody(name string, sig *types.Signature, ftype *ast.FuncTyp
 	if !ex.st.dead {
 		fr.exits = append(fr.exits, ex.st.clone())
 	}
+	// the function under verification without deferred calls: check the postconditions at each exit separately
+	if len(ex.frames) == 1 && ex.exitHook != nil && len(fr.defers) == 0 && len(fr.exits) > 1 && ex.quiet == 0 {
+		hook := ex.exitHook
+		ex.exitHook = nil
+		for xi, x := range fr.exits {
+			ex.st = x.clone()
+			var outs []Val
+			for j, k := range fr.resKeys {
+				outs = append(outs, Val{ex.get(ex.st, k), fr.resTyps[j]})
+			}
+			hook(outs, fmt.Sprintf("@exit%d", xi+1))
+		}
+		ex.exitsChecked = true
+	}
 	ex.st = ex.merge(fr.exits)
 	// deferred calls, LIFO
 	for j := len(fr.defers) - 1; j >= 0 && !ex.st.dead; j-- {
